@@ -106,7 +106,10 @@ pub fn family(rng: &mut Rng) -> (Vec<String>, &'static str) {
             2 => ("[]", "[7]", "for zz_j in zz_c { attr (zz_n) hit = zz_j }", "escape_for_source"),
             _ => ("[]", "[7]", "if (not (is-empty [ zz_j for zz_j in zz_c ])) { attr (zz_n) hit = zz_i }", "escape_comprehension_source"),
         };
-        let definer = format!("(module) @m {{ let @m.zz_v = {} }}", scoped);
+        // the defining stanza's pattern may complete later than the reading one's for the same
+        // node (then lazy evaluation meets the reader first, whatever the order in the file)
+        let dq = *rng.pick(&["(module) @m", "(module) @m", "(module . (_) @_first) @m", "(module (_) @_last .) @m"]);
+        let definer = format!("{} {{ let @m.zz_v = {} }}", dq, scoped);
         // optionally a local assignment first (the variable stays non-local all the same), or the
         // scoped assignment hidden in an arm that the first iteration does not take
         let pre = if rng.chance(1, 3) { format!("set zz_c = {} ", init) } else { String::new() };
